@@ -149,7 +149,7 @@ impl Cell for str {
             }
             // Don't add the delimiter if we just trimmed whitespace.
             if self[boundary..].trim().is_empty() {
-                self[..boundary + 1].to_owned()
+                self[..boundary].to_owned()
             } else {
                 format!("{}{delim}", &self[..boundary])
             }
